@@ -207,9 +207,13 @@ def import_cases(ctx):
     from xdoctest import doctest_example
     tmp = tempfile.mkdtemp(prefix='xdverif_c12_')
     try:
+        real_path0 = list(sys.path)
         for name, src in IMPORT_MODULES.items():
+          for onpath in ('absent', 'front', 'last'):
+            # the module's directory may already be an entry of sys.path (a project root, the current directory)
+            sys.path[:] = {'absent': real_path0, 'front': [tmp] + real_path0, 'last': real_path0 + [tmp]}[onpath]
             for index in (-1, 0):
-                modname = 'xdverif_c12_%s_%s' % (name, 'm1' if index < 0 else '0')
+                modname = 'xdverif_c12_%s_%s_%s' % (name, 'm1' if index < 0 else '0', onpath)
                 p = os.path.join(tmp, modname + '.py')
                 open(p, 'w').write(src + '\ndef f():\n    """\n    >>> print(1)\n    1\n    """\n')
                 ctx.evaluations += 1
@@ -255,6 +259,7 @@ def import_cases(ctx):
                         name, [x for x in after['path'] if x not in before['path']]), 'module_source': src,
                         'theorem_or_correspondence': 'C12 pre-import in DocTest.run'}, True)
                 sys.path[:] = before['path']
+        sys.path[:] = real_path0
         # missing file
         before = snapshot()
         try:
